@@ -585,6 +585,7 @@ def check_cfg(run, lst, ob):
         return f"cfg:{what}:{e[2]}:{tok.kind}:{origin}:" + ":".join(ctxs)
 
     input_fn_of_label = input_label_functions(case)
+    input_site_blocks = input_return_site_blocks(case, case["isa"])
     fn_orig_ret_left = {t.fn for t in instr_at.values()
                         if t.kind == "ret" and t.patch is None}
     missing_ft_src0 = {(m[0], m[1]) for m in missing if m[2] == "ft"}
@@ -634,6 +635,12 @@ def check_cfg(run, lst, ob):
                     return "stale-site:callee-now-proxy"
                 return "stale-site:callee-changed"
             return f"extra-site:{origin}-ret:no-call-there"
+        if tok.fn is not None and any(
+                b in lst.proxy_deleted
+                for b in input_site_blocks.get(tok.fn, ())):
+            # the stale site edge of the line above, followed onto the proxy
+            # of its proxy-deleted site block
+            return f"extra-site:{origin}-ret:no-call-there:site-proxy-deleted"
         return f"extra-unknown-proxy:{origin}-ret"
 
     for e in sorted(missing, key=repr):
@@ -757,6 +764,25 @@ def input_label_functions(case):
             for b in iv["blocks"]:
                 for nme in b.get("labels", []):
                     res[nme] = fn_of.get(b["id"])
+    return res
+
+
+def input_return_site_blocks(case, isa):
+    """function name -> ids of the blocks that, in the input, directly follow
+    a block ending in a direct call to a label of that function"""
+    fn_of_label = input_label_functions(case)
+    res = {}
+    for s in case["secs"]:
+        blocks = [b for iv in s["ivs"] for b in iv["blocks"]]
+        for b, nxt in zip(blocks, blocks[1:]):
+            if not b["code"] or not b["items"]:
+                continue
+            last = b["items"][-1]
+            if vocab.VOCAB[isa][last["k"]]["kind"] != "call":
+                continue
+            fn = fn_of_label.get(last.get("t"))
+            if fn is not None:
+                res.setdefault(fn, set()).add(nxt["id"])
     return res
 
 
